@@ -30,7 +30,8 @@ def power_iteration(A: LinearOperator, maxiter: int = 100, key: Optional[PRNGKey
     Args:
         A: :class:`.LinearOperator` used for computation. Must be
             diagonalizable.
-        maxiter: Maximum number of power iterations to use.
+        maxiter: Maximum number of power iterations to use. Must be at
+            least 1.
         key: Jax PRNG key. Defaults to ``None``, in which case a new key
             is created.
 
@@ -40,7 +41,11 @@ def power_iteration(A: LinearOperator, maxiter: int = 100, key: Optional[PRNGKey
             - **mu**: Estimate of largest eigenvalue of `A`.
             - **v**: Eigenvector of `A` with eigenvalue `mu`.
 
+    Raises:
+        ValueError: If `maxiter` is less than 1.
     """
+    if maxiter < 1:
+        raise ValueError(f"Argument maxiter must be at least 1; got {maxiter}.")
     v, key = randn(shape=A.input_shape, key=key, dtype=A.input_dtype)
     v = v / snp.linalg.norm(v)
 
